@@ -12,8 +12,8 @@ import (
 	"github.com/ovh/kmip-go/ttlv"
 	"verifharness/msg"
 	"verifharness/pinned"
-	"verifharness/refttlv"
 	"verifharness/reftext"
+	"verifharness/refttlv"
 	"verifharness/vlib"
 )
 
@@ -21,7 +21,9 @@ func init() { All["C06"] = Spec{"exploration", runC06} }
 
 func tg(name string) uint32 { return uint32(pinned.Reg().Tags[name]) }
 
-func nInt(tag uint32, v int64) *refttlv.Node { return &refttlv.Node{Tag: tag, Type: refttlv.TInteger, I: v} }
+func nInt(tag uint32, v int64) *refttlv.Node {
+	return &refttlv.Node{Tag: tag, Type: refttlv.TInteger, I: v}
+}
 func nEnum(tag uint32, v uint32) *refttlv.Node {
 	return &refttlv.Node{Tag: tag, Type: refttlv.TEnumeration, I: int64(v)}
 }
@@ -220,16 +222,24 @@ func runC06(c *vlib.Check) {
 	carriers := []carrier{
 		{"Get response", true, kmip.OperationGet, func(ot uint32, obj *refttlv.Node) *refttlv.Node {
 			return nStruct(tg("ResponsePayload"), nEnum(tg("ObjectType"), ot), nText(tg("UniqueIdentifier"), "id"), obj)
-		}, func(m any) kmip.Object { return m.(*kmip.ResponseMessage).BatchItem[0].ResponsePayload.(*payloads.GetResponsePayload).Object }},
+		}, func(m any) kmip.Object {
+			return m.(*kmip.ResponseMessage).BatchItem[0].ResponsePayload.(*payloads.GetResponsePayload).Object
+		}},
 		{"Export response", true, kmip.OperationExport, func(ot uint32, obj *refttlv.Node) *refttlv.Node {
 			return nStruct(tg("ResponsePayload"), nEnum(tg("ObjectType"), ot), nText(tg("UniqueIdentifier"), "id"), attrOT(ot), obj)
-		}, func(m any) kmip.Object { return m.(*kmip.ResponseMessage).BatchItem[0].ResponsePayload.(*payloads.ExportResponsePayload).Object }},
+		}, func(m any) kmip.Object {
+			return m.(*kmip.ResponseMessage).BatchItem[0].ResponsePayload.(*payloads.ExportResponsePayload).Object
+		}},
 		{"Register request", false, kmip.OperationRegister, func(ot uint32, obj *refttlv.Node) *refttlv.Node {
 			return nStruct(tg("RequestPayload"), nEnum(tg("ObjectType"), ot), nStruct(tg("TemplateAttribute")), obj)
-		}, func(m any) kmip.Object { return m.(*kmip.RequestMessage).BatchItem[0].RequestPayload.(*payloads.RegisterRequestPayload).Object }},
+		}, func(m any) kmip.Object {
+			return m.(*kmip.RequestMessage).BatchItem[0].RequestPayload.(*payloads.RegisterRequestPayload).Object
+		}},
 		{"Import request", false, kmip.OperationImport, func(ot uint32, obj *refttlv.Node) *refttlv.Node {
 			return nStruct(tg("RequestPayload"), nText(tg("UniqueIdentifier"), "id"), attrOT(ot), obj)
-		}, func(m any) kmip.Object { return m.(*kmip.RequestMessage).BatchItem[0].RequestPayload.(*payloads.ImportRequestPayload).Object }},
+		}, func(m any) kmip.Object {
+			return m.(*kmip.RequestMessage).BatchItem[0].RequestPayload.(*payloads.ImportRequestPayload).Object
+		}},
 	}
 	for _, cr := range carriers {
 		for _, ot := range ots {
